@@ -90,6 +90,9 @@ def redescribe(crys, rng, kind):
         if len(shifts) != n: return None, None
         basis = [[(Si @ u + s) for u in atoms for s in shifts] for atoms in crys.basis]
         for b in basis: rng.shuffle(b)
+        if kind == "supercell-reduced":
+            # the library itself folds the listed supercell back (Crystal.reduce + minlattice): atoms listed in random order
+            return crystal.Crystal(crys.lattice @ S, basis, chemistry=crys.chemistry), "S=%s reduced by the constructor" % S.tolist()
         return crystal.Crystal(crys.lattice @ S, basis, chemistry=crys.chemistry, noreduce=True), "S=%s" % S.tolist()
 
 
@@ -158,7 +161,7 @@ def run(ck):
     for label, crys, chem, cut, sl, jn, d in tcommon.interstitial_pool(ck, rng, ck.n(12, 50)):
         pre, bE, preT, bET = tcommon.random_interstitial_data(nr, sl, jn)
         D = d.diffusivity(pre, bE, preT, bET)
-        for kind in ("unimodular", "sheared", "supercell"):
+        for kind in ("unimodular", "sheared", "supercell", "supercell-reduced"):
             try:
                 crys2, what = redescribe(crys, rng, kind)
             except Exception:
@@ -177,6 +180,11 @@ def run(ck):
             if len(j2) != ncell * len(j1):
                 ck.violation("re-described crystal (%s) has %d distinct jumps within the cutoff, the original %d per primitive cell (x%d cells)" % (kind, len(j2), len(j1), ncell),
                              {"crystal": repr(crys), "chem": chem, "cutoff": cut, "redescribed": repr(crys2), "how": what}, key="c09-jump-count")
+                continue
+            if kind == "supercell-reduced" and (ncell != 1 or len(crys2.G) != len(crys.G)):
+                ck.violation("a supercell listing handed to Crystal() is not folded back to the same crystal: volume ratio %d, %d operations instead of %d"
+                             % (ncell, len(crys2.G), len(crys.G)),
+                             {"crystal": repr(crys), "chem": chem, "redescribed": repr(crys2), "how": what}, key="c09-reduced-crystal")
                 continue
             if kind in ("unimodular", "sheared") and len(crys2.G) != len(crys.G): skipped["group-incomplete"] += 1; continue
             flat = sorted(i for w in sl2 for i in w)
